@@ -13,26 +13,25 @@ var ErrSimIO = errors.New("simulated I/O error")
 
 // Reader profiles (a tape choice per run).
 const (
-	ChunkFull = iota // as much as the caller asks for
-	ChunkSmall       // 1..7 bytes
-	ChunkByte        // one byte at a time
+	ChunkFull  = iota // as much as the caller asks for
+	ChunkSmall        // 1..7 bytes
+	ChunkByte         // one byte at a time
 	NumChunkProfiles
 )
 
 // ReaderConfig says what a SimReader may do.
 type ReaderConfig struct {
-	Profile      int
-	EOFWithData  bool // deliver the final bytes together with io.EOF
-	EmptyReads   bool // occasionally return (0, nil)
-	Transient    bool // occasionally fail once with ErrSimIO (only where Boundary says it is allowed)
-	DeadAt       int  // >0: every read at or after this source offset fails
-	MoreAfterEOF bool // segments: after an io.EOF, later reads deliver the next segment
+	Profile     int
+	EOFWithData bool // deliver the final bytes together with io.EOF
+	EmptyReads  bool // occasionally return (0, nil)
+	Transient   bool // occasionally fail once with ErrSimIO (only where Boundary says it is allowed)
+	DeadAt      int  // >0: every read at or after this source offset fails
 }
 
 // SimReader is a host reader over fixed bytes whose chunking, EOF style and faults are decided by a tape lane.
 type SimReader struct {
 	Src      []byte
-	Segs     []int // end offsets of segments (only with MoreAfterEOF); last must be len(Src)
+	Segs     []int // end offsets of segments made available one by one with Feed; last must be len(Src)
 	Cfg      ReaderConfig
 	Lane     *Lane
 	Run      *Run
@@ -56,6 +55,17 @@ func (d *SimReader) segEnd() int {
 
 func (d *SimReader) Offset() int { return d.off }
 
+// Feed makes the next segment available (more input after an end of file, as on a terminal or a growing file).
+func (d *SimReader) Feed() bool {
+	if d.seg < len(d.Segs)-1 {
+		d.seg++
+		d.eofSent = false
+		d.fault("more-after-eof")
+		return true
+	}
+	return false
+}
+
 func (d *SimReader) Read(p []byte) (int, error) {
 	d.Reads++
 	if d.Run != nil {
@@ -64,24 +74,16 @@ func (d *SimReader) Read(p []byte) (int, error) {
 	if len(p) == 0 {
 		return 0, nil
 	}
-	if d.Cfg.DeadAt > 0 && d.off >= d.Cfg.DeadAt {
+	if d.Cfg.DeadAt > 0 && d.off >= d.Cfg.DeadAt && (d.Boundary == nil || d.Boundary(d.off)) {
 		d.fault("read-dead")
 		return 0, ErrSimIO
 	}
 	end := d.segEnd()
 	if d.off >= end {
-		// at the end of the current segment
-		if len(d.Segs) > 0 && d.seg < len(d.Segs)-1 && d.eofSent {
-			// more after EOF: the next segment becomes available
-			d.seg++
-			d.eofSent = false
-			d.fault("more-after-eof")
-			end = d.segEnd()
-		} else {
-			d.eofSent = true
-			d.probe("eof-after")
-			return 0, io.EOF
-		}
+		// at the end of what is available: EOF is a state, it is reported until Feed makes more available
+		d.eofSent = true
+		d.probe("eof-after")
+		return 0, io.EOF
 	}
 	if d.Cfg.EmptyReads && d.empties < 2 && d.Lane.Choose(8) == 7 {
 		d.empties++
